@@ -346,9 +346,7 @@ class Interp:
                 continue
             if isinstance(av, ast.Name) and av.id == pn:
                 continue
-            if isinstance(av, ast.Attribute) and isinstance(av.value, ast.Name) and cur.self_name and av.value.id == cur.self_name:
-                continue
-            return None
+            return None  # the analyses are name-based: an argument that is not its parameter's namesake would be lost inside the helper
         return g
 
     def _awaited_call(self, call: ast.Call) -> bool:
@@ -557,6 +555,26 @@ class Interp:
             # negated one (guard clauses, swapped arms)
             t, f = self._refine(test.operand, facts)
             return f, t
+        if isinstance(test, ast.Call) and getattr(self.a, "inline_predicates", True) and getattr(self.a, "fn", None) is not None and len(self._inline_stack) < self.INLINE_DEPTH:
+            # `if self.__is_x(exc):` where the private helper is one `return <boolean expression>` over its parameters' namesakes:
+            # refine on that expression
+            try:
+                from .norm import helper_return_expr
+                r = helper_return_expr(self.a.fn, test)
+            except Exception:  # noqa: BLE001
+                r = None
+            if r is not None:
+                expr, g = r
+                params = [x.arg for x in g.node.args.posonlyargs + g.node.args.args]
+                if g.cls is not None and not g.has_decorator("staticmethod") and params:
+                    params = params[1:]
+                same = all(isinstance(a, ast.Name) and i < len(params) and a.id == params[i] for i, a in enumerate(test.args)) and not test.keywords
+                if same and not any(isinstance(x, (ast.Await, ast.Yield, ast.NamedExpr)) for x in ast.walk(expr)):
+                    self._inline_stack.append(g)
+                    try:
+                        return self._refine(expr, facts)
+                    finally:
+                        self._inline_stack.pop()
         ts: list = []
         fs: list = []
         for fact in facts:
